@@ -31,4 +31,19 @@ TEXT = {
   "note": "JSON-RPC server survival and embedded getters are not theorems (runtime / correspondence).",
   "technique": "Lean 4 proof (omega) + differential correspondence",
  },
+ "C20": {
+  "text": "Kernel-checked theorems over the Go-faithful model of NewMomentumContent (sorted by address|height|hash bytes; any two "
+          "sorted arrangements of the same headers are equal, so sort(perm l) = sort l independently of the algorithm), of "
+          "CheckGenesis and its five validators (accepted => entries of every declared token add up to TotalSupply, every given "
+          "token declared, swap contract holds nothing; plasma/pillar holdings and ledger supply under explicit extra premises "
+          "with negative witnesses for the gaps) and of checkGenesisCompatibility (refused iff stored height-1 hash differs); "
+          "tied to the tree by regenerated facts (validator order, comparer operator, header field order, contract addresses) "
+          "and a differential stream on the real NewGenesis / CheckGenesis / chain.Init.",
+  "design_ref": "§3 C20",
+  "note": "Permutation / fresh-process invariance of the whole genesis momentum is decided on the real code by the stream's "
+          "monitor, not by a theorem. Three accepted-but-inconsistent configuration classes are reproduced on the real code on "
+          "every run and listed as known findings F13a-c.",
+  "technique": "Lean 4 proof (core List.mergeSort/Perm lemmas, induction, decide witnesses) + regenerated facts from AST + "
+               "differential correspondence + ledger monitor on a real chain",
+ },
 }
